@@ -4560,6 +4560,11 @@ _dispatch_workloop_push_waiter(dispatch_workloop_t dwl,
 		qos = DISPATCH_QOS_DEFAULT;
 	}
 
+	// When a waiter is redirected here by another thread, it can be woken up
+	// (and its stack-allocated context be gone) as soon as it is pushed:
+	// the context may only be touched afterwards by the waiter itself
+	bool waiter_is_self = (dsc->dsc_waiter == _dispatch_tid_self());
+
 	prev = _dispatch_workloop_push_update_tail(dwl, qos, dc);
 	_dispatch_workloop_push_update_prev(dwl, qos, prev, dc);
 	if (likely(!os_mpsc_push_was_empty(prev))) return;
@@ -4583,7 +4588,9 @@ _dispatch_workloop_push_waiter(dispatch_workloop_t dwl,
 		}
 	});
 
-	dsc->dsc_wlh_was_first = (dsc->dsc_waiter == _dispatch_tid_self());
+	if (waiter_is_self) {
+		dsc->dsc_wlh_was_first = true;
+	}
 
 	if ((old_state ^ new_state) & DISPATCH_QUEUE_IN_BARRIER) {
 		return _dispatch_workloop_barrier_complete(dwl, qos, 0);
@@ -4964,12 +4971,12 @@ _dispatch_lane_wakeup(dispatch_lane_class_t dqu, dispatch_qos_t qos,
 DISPATCH_ALWAYS_INLINE
 static inline bool
 _dispatch_lane_push_waiter_should_wakeup(dispatch_lane_t dq,
-		dispatch_sync_context_t dsc)
+		bool async_and_wait)
 {
 	if (_dispatch_queue_is_thread_bound(dq)) {
 		return true;
 	}
-	if (dsc->dc_flags & DC_FLAG_ASYNC_AND_WAIT) {
+	if (async_and_wait) {
 		uint64_t dq_state = os_atomic_load2o(dq, dq_state, relaxed);
 		return _dispatch_async_and_wait_should_always_async(dq, dq_state);
 	}
@@ -4988,8 +4995,13 @@ _dispatch_lane_push_waiter(dispatch_lane_t dq, dispatch_sync_context_t dsc,
 		qos = 0;
 	}
 
+	// When a waiter is redirected here by another thread, it can be woken up
+	// (and its stack-allocated context be gone) as soon as it is pushed
+	bool async_and_wait = (dsc->dc_flags & DC_FLAG_ASYNC_AND_WAIT);
+
 	if (unlikely(_dispatch_queue_push_item(dq, dsc))) {
-		if (unlikely(_dispatch_lane_push_waiter_should_wakeup(dq, dsc))) {
+		if (unlikely(_dispatch_lane_push_waiter_should_wakeup(dq,
+				async_and_wait))) {
 			return dx_wakeup(dq, qos, DISPATCH_WAKEUP_MAKE_DIRTY);
 		}
 
